@@ -150,3 +150,26 @@ fn c18_segment_header_wire() {
         }
     }
 }
+
+// The one header the symbolic harness above was written for, concretely: timestamp 0 / segment id 0
+// is the empty byte string on the wire and must convert back (seed C18-empty-segment-info).
+// verif: prop=C18 tier=thorough cap=600 mem=10 bound="segment header timestamp 0 / segment id 0 (empty prost encoding), zero AS entries" fns="SignedPathSegment::try_from_rpc, SegmentInfo::{into_rpc,try_from_rpc}, prost SegmentInformation::{encode_to_vec,decode}" stubs="alloc::fmt::format -> empty string"
+#[kani::proof]
+#[kani::unwind(12)]
+#[kani::stub(alloc::fmt::format, fmt_stub)]
+fn c18_zero_hdr_wire() {
+    let si = SegmentInfo::new(0, 0);
+    let bytes = si.into_rpc().encode_to_vec();
+    assert!(bytes.is_empty(), "proto3 encodes the all-zero header as no bytes");
+    let msg = pb::PathSegment { segment_info: bytes, as_entries: Vec::new() };
+    match SignedPathSegment::try_from_rpc(msg) {
+        Ok(s) => {
+            assert!(s.info.timestamp == 0 && s.info.segment_id == 0, "segment header changed by the RPC round trip");
+            assert!(s.as_entries.is_empty(), "AS entries invented by the RPC conversion");
+            std::mem::forget(s);
+        }
+        Err(_) => {
+            assert!(false, "all-zero segment header rejected after into_rpc");
+        }
+    }
+}
